@@ -381,6 +381,26 @@ def oracle_side_stats(ent, d):
     return None
 
 
+def oracle_pair_adapter_stats(ent):
+    """C20 under --pair-adapters, whatever the action: a pair is processed exactly when some rank matches both mates (each adapter's
+    own answer on the mate as it reaches the step), and then one match is applied to -- and tallied for -- an R1 adapter and one for
+    an R2 adapter; so the matches reported for the adapters of R1 add up to the number of such pairs, and so do those of R2"""
+    pcfg, pairs, res = ent["cfg"], ent["pairs"], ent["impl"]
+    b, rep = pcfg.base, res.get("report")
+    if not pcfg.pair_adapters or rep is None or b.revcomp or b.times != 1:
+        return None
+    if b.cuts or pcfg.cuts2 or b.qcut or pcfg.qcut2 or b.nextseq is not None:
+        return None
+    o1, o2 = ent.get("_objs") or P.adapter_objects2(pcfg)
+    ent["_objs"] = (o1, o2)
+    t = sum(1 for m1, m2 in pairs if any(x1.match_to(m1[1]) is not None and x2.match_to(m2[1]) is not None for x1, x2 in zip(o1, o2)))
+    for side in (1, 2):
+        tot = sum(a.get("total_matches", 0) for a in rep.get("adapters_read%d" % side) or [])
+        if tot != t:
+            return "--pair-adapters (action %s): %d pairs have a rank that matches both mates, the adapters of R%d report %d matches" % (b.action, t, side, tot)
+    return None
+
+
 def oracle_stats_cover_trimming(ent):
     """a lower bound that holds in every paired run, --revcomp included: when nothing but the adapters shortens the reads and the action
     is trim, every written mate that is shorter than the input mate it stems from was shortened by at least one applied match of an
@@ -647,7 +667,7 @@ PAIRED_ORACLES = {
     "C11": lambda ent, d: oracle_decision(ent, d),
     "C15": lambda ent, d: oracle_sync(ent) or oracle_pdemux(ent, d) or oracle_decision(ent, d),
     "C16": lambda ent, d: oracle_paired_revcomp(ent),
-    "C20": lambda ent, d: oracle_side_stats(ent, d) or oracle_stats_cover_trimming(ent),
+    "C20": lambda ent, d: oracle_side_stats(ent, d) or oracle_stats_cover_trimming(ent) or oracle_pair_adapter_stats(ent),
 }
 PAIRED_FOCUS = {
     "C03": ("action", "adapters", "revcomp", "cut", "qual", "length", "times", "pairactions:0.2"),
@@ -658,7 +678,7 @@ PAIRED_FOCUS = {
     "C11": ("filters", "pairfilter", "adapters", "onesided:0.3"),
     "C15": ("demux", "combinatorial", "adapters", "times"),
     "C16": ("revcomp", "adapters", "times", "action"),
-    "C20": ("adapters", "adapters2:0.7", "times", "onesided:0.3", "revcomp"),
+    "C20": ("adapters", "adapters2:0.7", "times", "onesided:0.3", "revcomp", "pairactions:0.12"),
 }
 
 
